@@ -11,6 +11,10 @@ import CLModel.Proofs.C05Pipe
 import CLModel.Proofs.C05Report
 import CLModel.Proofs.C05Lint
 import CLModel.Proofs.C05Props
+import CLModel.Proofs.C05DtdPipe
+import CLModel.Proofs.C05Clash
+import CLModel.Proofs.C05Decode
+import CLModel.Proofs.C05Ext
 namespace C05
 open P Rx
 
@@ -120,53 +124,69 @@ example : ∃ r ∈ Checks.baseCheck #[97, 0xFFFD, 98], r.pos = 1 := by decide
 
 /-! ## The composed pipeline (CLModel/Compare/Pipeline.lean)
 
-`Pipe.compareTexts fmt refText l10nText mergeOn : Except PyErr Report` is `ContentComparer.compare` (one unfiltered
+`Pipe.compareTexts ext fmt refText l10nText mergeOn : Except PyErr Report` is `ContentComparer.compare` (one unfiltered
 `Observer`, file `a.<ext>`, locale "de", fresh process) followed by `observers.toJSON()`; `Pipe.compareFiles` is the same
 for any `File` and any list of fresh observers with filters; `Pipe.lintText` is `L10nLinter.lint_file`.  They compose
 the component models: `P.walk` (C01), `Hist.assign` (C18), `P.entView` (C02), `AR.addRemove`/`keyedIndex` (C20), the
-loop of C03 extended by the checker call, `Checks.baseCheck` (C05) / `PropCk.check` (C06), `Pos.resolveCheckPos`
-(C17), `ObsM`/`TreeM` (C10), `Merge.merge` (C04), `Lint.lintFile` (C19).
+loop of C03 extended by the checker call, `Checks.baseCheck` (C05) / `PropCk.check` (C06) / `Dtd.check` (C07),
+`Pos.resolveCheckPos` (C17), `ObsM`/`TreeM` (C10), `Merge.merge` (C04), `Lint.lintFile` (C19).
 
-Covered: ini, inc, po (base `Checker`) and properties (`PropertiesChecker`).  Not covered: dtd (expat is external),
-ftl, android (no regex parser): for those the claim is decided by the execution oracle.
+Covered from the TEXT on: ini, inc, po (base `Checker`), properties (`PropertiesChecker`) and dtd (`DTDChecker`).
+`ext : Pipe.Ext` holds the external library functions as PARAMETERS: expat's verdict per synthetic document and
+`html.unescape`; every theorem below holds for EVERY `ext` — no contract on expat's line / column / message is needed:
+the position arithmetic of the checker (`Dtd.errorPos`, with upstream fix f80b06f) and `DTDEntity.value_position` are
+total on all integers.  Fluent and Android are covered from the external parser's output on (section below).
 
-FULL STATEMENT (C05): `∀ fmt refText l10nText mergeOn, ∃ r, compareTexts fmt refText l10nText mergeOn = .ok r`.
+FULL STATEMENT (C05): `∀ ext fmt refText l10nText mergeOn, ∃ r, compareTexts ext fmt refText l10nText mergeOn = .ok r`.
 It is FALSE for the code as it is: when the key of a localized entity equals the key `_junk_<n>_<a>-<b>` of a `Junk`
 of the reference, `refent.equals(l10nent)` raises AttributeError (`Junk` has no `equals`) — `junk_key_clash_raises`
 below is the model's witness, the harness shows it on the real code (finding F8-junk-key-clash-raise).  The theorems
-on the comparison therefore carry the hypothesis `Pipe.NoJunkClashT` and are named `_partial`; besides that hypothesis
-they are restricted to the covered formats.  `Pipe.noClashTB` is a decidable sufficient condition. -/
+on the comparison therefore carry the hypothesis `Pipe.NoJunkClashT` and are named `_partial`.  For dtd the texts must
+hold Unicode scalar values (`TextOK`): `str.encode("utf-8")` raises on a lone surrogate (`surrogate_raises`); texts read
+by `Parser.readFile` always satisfy this (`C05.decode_scalar`). -/
 
-/-- the formats whose whole pipeline is modelled -/
-def CoveredFmt (f : P.Fmt) : Prop := f = .ini ∨ f = .inc ∨ f = .po ∨ f = .properties
-
-theorem covered_checker {f : P.Fmt} (h : CoveredFmt f) : ∃ ck, Pipe.checkerOf f = some ck := by
-  rcases h with rfl | rfl | rfl | rfl <;> exact ⟨_, rfl⟩
+/-- what the theorems need of a text: nothing, except for `.dtd` where the checker encodes pieces of it as UTF-8 -/
+def TextOK (fmt : P.Fmt) (t : Array Nat) : Prop := fmt = .dtd → C05Dtd.ScalarText t.toList
 
 theorem stdFile_modelled (fmt : P.Fmt) : ObsM.Modelled (Pipe.stdFile fmt) := by
   intro m hmod; simp [Pipe.stdFile] at hmod
 
+/-- the checker of every format answers for every pair of Entities the comparison hands to it -/
+theorem checkerOK_fmt (ext : Pipe.Ext) (fmt : P.Fmt) (file : ObsM.File) (mergeOn : Bool) (refText l10nText : Array Nat)
+    (hs1 : TextOK fmt refText) (hs2 : TextOK fmt l10nText) :
+    ∀ ref n1 l10n n2, Pipe.parseFile ext fmt refText 0 = .ok (ref, n1) → Pipe.parseFile ext fmt l10nText n1 = .ok (l10n, n2) →
+      (∀ e ∈ ref, Pipe.PWf fmt e) → (∀ e ∈ l10n, Pipe.PWf fmt e) →
+      Pipe.CheckerOK (Pipe.envOf ext fmt file mergeOn ref l10nText) ref l10n := by
+  intro ref n1 l10n n2 hp1 hp2 hw1 hw2
+  by_cases hd : fmt = .dtd
+  · subst hd
+    have hsr := C05Dtd.parseFile_scalar ext refText (hs1 rfl) 0 ref n1 hp1
+    have hsl := C05Dtd.parseFile_scalar ext l10nText (hs2 rfl) n1 l10n n2 hp2
+    exact C05Dtd.checkerOK_dtd _ rfl rfl ref l10n hw1 hw2 (C05Dtd.refVals_scalar ref hsr) hsr hsl
+  · exact Pipe.checkerOK_internal fmt hd _ rfl rfl ref l10n hw1 hw2
+
 /-- **compare never raises** (all texts, no bound; any file the observers can address, any list of fresh observers
-    with arbitrary filters and quiet level; with or without merge staging).  From: `parse_never_stuck` (C01), the
-    value lemmas of C02 (`props_unescape_is_spec`, `po_unescape_is_spec`), the lookup lemmas of C03/C20, observer
-    totality `list_run_ok` (C10), `linecol` totality (C17), the C06 verdict theorems (properties checker),
-    `merge_no_type_error` (C05: regex-format entries always have spans). -/
-theorem compare_never_raises_partial (fmt : P.Fmt) (hf : CoveredFmt fmt) (file : ObsM.File) (hm : ObsM.Modelled file)
+    with arbitrary filters and quiet level; with or without merge staging; for dtd: EVERY expat verdict function and
+    every `html.unescape`).  From: `parse_never_stuck` (C01), the value lemmas of C02 (`props_unescape_is_spec`,
+    `po_unescape_is_spec`), the lookup lemmas of C03/C20, observer totality `list_run_ok` (C10), `linecol` totality
+    (C17), the C06 verdict theorems (properties checker), `Dtd.errorPos_isSome` (C07: the `lines[lnr-1]` IndexError is
+    gone) and `C05Dtd.check_no_exc`, `merge_no_type_error` (C05: regex-format entries always have spans). -/
+theorem compare_never_raises_partial (ext : Pipe.Ext) (fmt : P.Fmt) (file : ObsM.File) (hm : ObsM.Modelled file)
     (q : Nat) (flts : List (Option ObsM.Filter)) (refText l10nText : Array Nat) (mergeOn : Bool)
-    (hnc : Pipe.NoJunkClashT fmt refText l10nText) :
-    ∃ r, Pipe.compareFiles fmt file (ObsM.ObsList.init q (flts.map (ObsM.Obs.init q))) refText l10nText mergeOn = .ok r := by
-  obtain ⟨ck, hck⟩ := covered_checker hf
+    (hs1 : TextOK fmt refText) (hs2 : TextOK fmt l10nText)
+    (hnc : Pipe.NoJunkClashT ext fmt refText l10nText) :
+    ∃ r, Pipe.compareFiles ext fmt file (ObsM.ObsList.init q (flts.map (ObsM.Obs.init q))) refText l10nText mergeOn = .ok r := by
   obtain ⟨_, _, _, _, obs', outcome, _, _, _, _, _, _, h, _⟩ :=
-    Pipe.compareFiles_spec fmt ck hck file hm (Pipe.fresh_init q flts) refText l10nText mergeOn
-      (parse_never_stuck fmt) merge_no_type_error
-      (fun ref l10n hwr hwl => Pipe.checkerOK_covered fmt ck hck _ rfl ref l10n hwr hwl) hnc
+    Pipe.compareFiles_spec ext fmt file hm (Pipe.fresh_init q flts) refText l10nText mergeOn
+      (parse_never_stuck fmt) merge_no_type_error (checkerOK_fmt ext fmt file mergeOn refText l10nText hs1 hs2) hnc
   exact ⟨_, h⟩
 
 /-- the same for the harness configuration `compareTexts` -/
-theorem compareTexts_never_raises_partial (fmt : P.Fmt) (hf : CoveredFmt fmt) (refText l10nText : Array Nat) (mergeOn : Bool)
-    (hnc : Pipe.NoJunkClashT fmt refText l10nText) :
-    ∃ r, Pipe.compareTexts fmt refText l10nText mergeOn = .ok r :=
-  compare_never_raises_partial fmt hf _ (stdFile_modelled fmt) 0 [none] refText l10nText mergeOn hnc
+theorem compareTexts_never_raises_partial (ext : Pipe.Ext) (fmt : P.Fmt) (refText l10nText : Array Nat) (mergeOn : Bool)
+    (hs1 : TextOK fmt refText) (hs2 : TextOK fmt l10nText)
+    (hnc : Pipe.NoJunkClashT ext fmt refText l10nText) :
+    ∃ r, Pipe.compareTexts ext fmt refText l10nText mergeOn = .ok r :=
+  compare_never_raises_partial ext fmt _ (stdFile_modelled fmt) 0 [none] refText l10nText mergeOn hs1 hs2 hnc
 
 /-- a well-formed item of `toJSON()["details"]`: an error or a warning whose value is a `str` of one of the four
     message shapes (all positions are `%d`-formatted integers), or a missing/obsolete entity whose value is the key -/
@@ -178,16 +198,15 @@ def DetailWF (d : ObsM.Detail) : Prop :=
     warning with a text message — `"<key> occurs <n> times"`, `"Parser error in en-US"`, `Junk.error_message()` with
     four integers, or `"<msg> at line <int>, column <int> for <key>"` — or a missing/obsolete key.
     (That the summary values are natural numbers holds by the type of `Report.summary`.) -/
-theorem report_wellformed_partial (fmt : P.Fmt) (hf : CoveredFmt fmt) (file : ObsM.File) (hm : ObsM.Modelled file)
+theorem report_wellformed_partial (ext : Pipe.Ext) (fmt : P.Fmt) (file : ObsM.File) (hm : ObsM.Modelled file)
     (q : Nat) (flts : List (Option ObsM.Filter)) (refText l10nText : Array Nat) (mergeOn : Bool)
-    (hnc : Pipe.NoJunkClashT fmt refText l10nText) (r : Pipe.Report)
-    (hr : Pipe.compareFiles fmt file (ObsM.ObsList.init q (flts.map (ObsM.Obs.init q))) refText l10nText mergeOn = .ok r) :
+    (hs1 : TextOK fmt refText) (hs2 : TextOK fmt l10nText)
+    (hnc : Pipe.NoJunkClashT ext fmt refText l10nText) (r : Pipe.Report)
+    (hr : Pipe.compareFiles ext fmt file (ObsM.ObsList.init q (flts.map (ObsM.Obs.init q))) refText l10nText mergeOn = .ok r) :
     ∀ leaf ∈ r.details, ∀ d ∈ leaf.2, DetailWF d := by
-  obtain ⟨ck, hck⟩ := covered_checker hf
   obtain ⟨_, _, _, _, obs', outcome, evs, stats, _, _, _, _, h, hreach, hwf, _⟩ :=
-    Pipe.compareFiles_spec fmt ck hck file hm (Pipe.fresh_init q flts) refText l10nText mergeOn
-      (parse_never_stuck fmt) merge_no_type_error
-      (fun ref l10n hwr hwl => Pipe.checkerOK_covered fmt ck hck _ rfl ref l10n hwr hwl) hnc
+    Pipe.compareFiles_spec ext fmt file hm (Pipe.fresh_init q flts) refText l10nText mergeOn
+      (parse_never_stuck fmt) merge_no_type_error (checkerOK_fmt ext fmt file mergeOn refText l10nText hs1 hs2) hnc
   rw [h] at hr
   cases hr
   intro leaf hleaf d hd
@@ -203,24 +222,47 @@ theorem report_wellformed_partial (fmt : P.Fmt) (hf : CoveredFmt fmt) (file : Ob
       exact Or.inr ⟨by simpa [ObsM.detailOf, hnf] using hc, k, by simp [ObsM.detailOf, hnf]⟩
   · cases hev
 
+/-- whatever the checker of a format yields for two Entities contains the results of the base check -/
+theorem base_in_results_fmt (ext : Pipe.Ext) (fmt : P.Fmt) (file : ObsM.File) (mergeOn : Bool) (refText l10nText : Array Nat)
+    (hs1 : TextOK fmt refText) (hs2 : TextOK fmt l10nText)
+    (ref : List Pipe.PEnt) (n1 : Nat) (l10n : List Pipe.PEnt) (n2 : Nat)
+    (hp1 : Pipe.parseFile ext fmt refText 0 = .ok (ref, n1)) (hp2 : Pipe.parseFile ext fmt l10nText n1 = .ok (l10n, n2))
+    (hw1 : ∀ e ∈ ref, Pipe.PWf fmt e) (hw2 : ∀ e ∈ l10n, Pipe.PWf fmt e)
+    (r l : Pipe.PEnt) (hr : r ∈ ref) (hl : l ∈ l10n) (hrj : r.junk = false) (hlj : Pipe.checkerOf fmt ≠ .base → l.junk = false)
+    (rs : List Pipe.CheckRes) (h : Pipe.runChecker (Pipe.envOf ext fmt file mergeOn ref l10nText).ck r l = .ok rs) :
+    ∀ b ∈ Pipe.runBase l, b ∈ rs := by
+  by_cases hd : fmt = .dtd
+  · subst hd
+    have hsr := C05Dtd.parseFile_scalar ext refText (hs1 rfl) 0 ref n1 hp1
+    have hsl := C05Dtd.parseFile_scalar ext l10nText (hs2 rfl) n1 l10n n2 hp2
+    have hlj' := hlj (by simp [Pipe.checkerOf])
+    obtain ⟨rk, hrk⟩ := (hw1 r hr).2.1 (by simp)
+    obtain ⟨lk, hlk⟩ := (hw2 l hl).2.1 (by simp)
+    obtain ⟨rs', h1, _, h3⟩ := C05Dtd.runDtd_ok (Pipe.envOf ext .dtd file mergeOn ref l10nText).ck r l rk lk hrk hlk hlj'
+      ((hw2 l hl).entity hlj') (C05Dtd.refVals_scalar ref hsr) (hsr r hr) (hsl l hl) hrj
+    have : Pipe.runChecker (Pipe.envOf ext .dtd file mergeOn ref l10nText).ck r l = Pipe.runDtd (Pipe.envOf ext .dtd file mergeOn ref l10nText).ck r l := rfl
+    rw [this, h1] at h
+    cases h
+    exact h3
+  · exact Pipe.base_in_results fmt hd _ rfl r l (hw1 r hr) (hw2 l hl) hrj hlj rs h
+
 /-- **U+FFFD is always warned, end to end**: for every key shared by the two files whose LAST localized entry's text
     (`.all`) contains U+FFFD, `toJSON()["details"]` of the finished comparison has the warning
     `"� in: <key> at line <l>, column <c> for <key>"` — the "encodings" result of the base check, which
-    `PropertiesChecker.check` yields first.  Uses `ufffd_warned`. -/
-theorem ufffd_warned_end_to_end_partial (fmt : P.Fmt) (hf : CoveredFmt fmt) (refText l10nText : Array Nat) (mergeOn : Bool)
-    (hnc : Pipe.NoJunkClashT fmt refText l10nText) :
-    ∃ r ref n1 l10n n2, Pipe.compareTexts fmt refText l10nText mergeOn = .ok r ∧
-      Pipe.parseFile fmt refText 0 = .ok (ref, n1) ∧ Pipe.parseFile fmt l10nText n1 = .ok (l10n, n2) ∧
+    `PropertiesChecker.check` and `DTDChecker.check` yield first.  Uses `ufffd_warned`. -/
+theorem ufffd_warned_end_to_end_partial (ext : Pipe.Ext) (fmt : P.Fmt) (refText l10nText : Array Nat) (mergeOn : Bool)
+    (hs1 : TextOK fmt refText) (hs2 : TextOK fmt l10nText)
+    (hnc : Pipe.NoJunkClashT ext fmt refText l10nText) :
+    ∃ r ref n1 l10n n2, Pipe.compareTexts ext fmt refText l10nText mergeOn = .ok r ∧
+      Pipe.parseFile ext fmt refText 0 = .ok (ref, n1) ∧ Pipe.parseFile ext fmt l10nText n1 = .ok (l10n, n2) ∧
       ∀ k refent l10nent, Pipe.lookup ref k = .ok refent → Pipe.lookup l10n k = .ok l10nent → 0xFFFD ∈ l10nent.all →
         ∃ leaf ∈ r.details, ∃ line col : Int,
           (ObsM.Cat.warning, ObsM.DVal.data (.str (Pipe.checkMsg (Pipe.encPrefix ++ Pipe.keyText l10nent.key) line col refent.key)))
             ∈ leaf.2 := by
   have hm := stdFile_modelled fmt
-  obtain ⟨ck, hck⟩ := covered_checker hf
   obtain ⟨ref, n1, l10n, n2, obs', outcome, evs, stats, hp1, hp2, hw1, hw2, h, hreach, _, hall⟩ :=
-    Pipe.compareFiles_spec fmt ck hck (Pipe.stdFile fmt) hm (Pipe.fresh_init 0 [none]) refText l10nText mergeOn
-      (parse_never_stuck fmt) merge_no_type_error
-      (fun ref l10n hwr hwl => Pipe.checkerOK_covered fmt ck hck _ rfl ref l10n hwr hwl) hnc
+    Pipe.compareFiles_spec ext fmt (Pipe.stdFile fmt) hm (Pipe.fresh_init 0 [none]) refText l10nText mergeOn
+      (parse_never_stuck fmt) merge_no_type_error (checkerOK_fmt ext fmt _ mergeOn refText l10nText hs1 hs2) hnc
   refine ⟨_, ref, n1, l10n, n2, h, hp1, hp2, ?_⟩
   intro k refent l10nent hlr hll hff
   obtain ⟨hrm, _, hkr⟩ := Pipe.lookup_ok hlr
@@ -240,12 +282,12 @@ theorem ufffd_warned_end_to_end_partial (fmt : P.Fmt) (hf : CoveredFmt fmt) (ref
   rw [hlr] at hlr'; cases hlr'
   rw [hll] at hll'; cases hll'
   -- the results of the checker contain those of the base check
-  obtain ⟨hrj, hlj⟩ := hnc ref n1 l10n n2 ck hp1 hp2 hck k hkr hkl
-  have hbase := Pipe.base_in_results fmt ck hck _ refent l10nent (hw1 _ hrm) (hw2 _ hlm) (hrj _ hlr)
-    (fun hp => hlj hp _ hll) rs hrs
+  obtain ⟨hrj, hlj⟩ := hnc ref n1 l10n n2 hp1 hp2 k hkr hkl
+  have hbase := base_in_results_fmt ext fmt (Pipe.stdFile fmt) mergeOn refText l10nText hs1 hs2 ref n1 l10n n2 hp1 hp2 hw1 hw2
+    refent l10nent hrm hlm (hrj _ hlr) (fun hp => hlj hp _ hll) rs hrs
   -- the base check yields an "encodings" warning
   obtain ⟨br, hbr, hsev, _⟩ := ufffd_warned l10nent.all.toArray (by simpa using hff)
-  obtain ⟨lc, hlc⟩ := Pipe.position_total l10nText l10nent.entry (br.pos : Int)
+  obtain ⟨lc, hlc⟩ := Pipe.resolve_entityPos l10nText (Pipe.clsOf fmt) l10nent (br.pos : Int)
   have hev : ObsM.Ev.notify .warning (Pipe.stdFile fmt)
       (.str (Pipe.checkMsg (Pipe.encPrefix ++ Pipe.keyText l10nent.key) lc.1 lc.2 refent.key)) ∈ evp := by
     rw [hevp]
@@ -254,19 +296,28 @@ theorem ufffd_warned_end_to_end_partial (fmt : P.Fmt) (hf : CoveredFmt fmt) (ref
     · apply hbase
       simp only [Pipe.runBase, List.mem_map]
       exact ⟨br, hbr, rfl⟩
-    · simp only [Pipe.checkEv, Pipe.envOf, Pos.resolveCheckPos, hlc, Option.map_some, hsev, Pipe.sevCat]
+    · simp only [Pipe.checkEv, Pipe.envOf, hlc, Option.map_some, hsev, Pipe.sevCat]
   obtain ⟨leaf, hleaf, hd⟩ := Pipe.report_has_detail (Pipe.stdFile fmt) hm _ obs' hreach outcome .warning _
     (List.mem_append_left _ (hsub _ hev)) (Or.inr (Or.inl rfl))
   exact ⟨leaf, hleaf, lc.1, lc.2, hd⟩
 
-/-- **lint never raises** (all texts of the covered formats, with or without a reference file): no hypothesis on junk
-    keys is needed, the linter compares an Entity with whatever the reference has under its key (`Entity.equals` only
-    reads `key` and `val`, which a `Junk` has too). -/
-theorem lint_never_raises (fmt : P.Fmt) (hf : CoveredFmt fmt) (refText : Option (Array Nat)) (curText : Array Nat) :
-    ∃ rs, Pipe.lintText fmt refText curText = .ok rs := by
-  obtain ⟨ck, hck⟩ := covered_checker hf
-  exact Pipe.lintText_ok fmt ck hck refText curText (parse_never_stuck fmt)
-    (fun e hw hj => Pipe.lint_checker_covered fmt ck hck e hw hj)
+/-- **lint never raises** (all texts, with or without a reference file, for dtd every expat verdict function): no
+    hypothesis on junk keys is needed, the linter compares an Entity with whatever the reference has under its key
+    (`Entity.equals` only reads `key` and `val`, which a `Junk` has too). -/
+theorem lint_never_raises (ext : Pipe.Ext) (fmt : P.Fmt) (refText : Option (Array Nat)) (curText : Array Nat)
+    (hs : TextOK fmt curText) :
+    ∃ rs, Pipe.lintText ext fmt refText curText = .ok rs := by
+  refine Pipe.lintText_ok ext fmt refText curText (parse_never_stuck fmt) ?_
+  intro cur n0 n1 hp e he hw hj
+  by_cases hd : fmt = .dtd
+  · subst hd
+    have hsc := C05Dtd.parseFile_scalar ext curText (hs rfl) n0 cur n1 hp
+    obtain ⟨k, hk⟩ := hw.2.1 (by simp)
+    obtain ⟨rs, h1, h2, _⟩ := C05Dtd.runDtd_ok
+      { kind := .dtd, locale := some Pipe.referenceLocale, xml := ext.xml, refVals := cur.map (·.raw) } e e k k hk hk hj
+      (hw.entity hj) (C05Dtd.refVals_scalar cur hsc) (hsc e he) (hsc e he) hj
+    exact ⟨rs, h1, h2⟩
+  · exact Pipe.lint_checker_internal fmt hd _ rfl _ e hw hj
 
 /-! ### the tie of `compareTexts` to file names: the generated tables select this parser and this checker -/
 
@@ -276,19 +327,23 @@ theorem fileName_parser :
     Lint.getParserName (Pipe.fileName .inc) = some [68, 101, 102, 105, 110, 101, 115, 80, 97, 114, 115, 101, 114] ∧
     Lint.getParserName (Pipe.fileName .po) = some [80, 111, 80, 97, 114, 115, 101, 114] ∧
     Lint.getParserName (Pipe.fileName .properties) =
-      some [80, 114, 111, 112, 101, 114, 116, 105, 101, 115, 80, 97, 114, 115, 101, 114] := by
-  refine ⟨?_, ?_, ?_, ?_⟩ <;> decide +kernel
+      some [80, 114, 111, 112, 101, 114, 116, 105, 101, 115, 80, 97, 114, 115, 101, 114] ∧
+    Lint.getParserName (Pipe.fileName .dtd) = some [68, 84, 68, 80, 97, 114, 115, 101, 114] := by
+  refine ⟨?_, ?_, ?_, ?_, ?_⟩ <;> decide +kernel
 
-/-- `getChecker`: `PropertiesChecker.pattern` matches `a.properties` only; none of the four special checkers' patterns
-    matches `a.ini`, `a.inc`, `a.po` (so `getChecker` falls through to the base `Checker`) -/
+/-- `getChecker`: `PropertiesChecker.pattern` matches `a.properties`, `DTDChecker.pattern` matches `a.dtd` (and the
+    properties pattern, tried first, does not); none of the four special checkers' patterns matches `a.ini`, `a.inc`,
+    `a.po` (so `getChecker` falls through to the base `Checker`) -/
 theorem fileName_checker :
     (Rx.matchAt (Pipe.fileName .properties).toArray Gen.Pat.PropertiesChecker_pattern 0).isSome = true ∧
+    (Rx.matchAt (Pipe.fileName .dtd).toArray Gen.Pat.PropertiesChecker_pattern 0).isSome = false ∧
+    (Rx.matchAt (Pipe.fileName .dtd).toArray Gen.Pat.DTDChecker_pattern 0).isSome = true ∧
     ∀ f, f = P.Fmt.ini ∨ f = P.Fmt.inc ∨ f = P.Fmt.po →
       (Rx.matchAt (Pipe.fileName f).toArray Gen.Pat.PropertiesChecker_pattern 0).isSome = false ∧
       (Rx.matchAt (Pipe.fileName f).toArray Gen.Pat.DTDChecker_pattern 0).isSome = false ∧
       (Rx.matchAt (Pipe.fileName f).toArray Gen.Pat.FluentChecker_pattern 0).isSome = false ∧
       (Rx.matchAt (Pipe.fileName f).toArray Gen.Pat.AndroidChecker_pattern 0).isSome = false := by
-  refine ⟨by decide +kernel, ?_⟩
+  refine ⟨by decide +kernel, by decide +kernel, by decide +kernel, ?_⟩
   intro f hf
   rcases hf with rfl | rfl | rfl <;> (refine ⟨?_, ?_, ?_, ?_⟩ <;> decide +kernel)
 
@@ -304,12 +359,14 @@ def exRef : Array Nat := #[97, 61, 49, 10, 98, 61, 50, 10]
 def exL10n : Array Nat := #[97, 61, 65533, 10, 63, 63, 10, 99, 61, 51, 10]
 
 /-- the hypothesis holds on a text pair with junk + missing + obsolete + U+FFFD … -/
-theorem ex_noClash : Pipe.NoJunkClashT .ini exRef exL10n :=
-  Pipe.noClashTB_sound _ _ _ (by decide +kernel)
+theorem ex_noClash : Pipe.NoJunkClashT default .ini exRef exL10n :=
+  Pipe.noClashTB_sound _ _ _ _ (by decide +kernel)
+
+theorem textOK_of_ne {fmt : P.Fmt} (h : fmt ≠ .dtd) (t : Array Nat) : TextOK fmt t := fun e => absurd e h
 
 /-- … so the comparison of that pair returns a report, with and without merge staging, -/
-example : ∀ m, ∃ r, Pipe.compareTexts .ini exRef exL10n m = .ok r :=
-  fun m => compareTexts_never_raises_partial .ini (Or.inl rfl) _ _ m ex_noClash
+example : ∀ m, ∃ r, Pipe.compareTexts default .ini exRef exL10n m = .ok r :=
+  fun m => compareTexts_never_raises_partial default .ini _ _ m (textOK_of_ne (by simp) _) (textOK_of_ne (by simp) _) ex_noClash
 
 def okWith {α : Type} (p : α → Bool) : Except Pipe.PyErr α → Bool
   | .ok a => p a
@@ -319,39 +376,489 @@ def okWith {α : Type} (p : α → Bool) : Except Pipe.PyErr α → Bool
     entry of its key (the premise of `ufffd_warned_end_to_end_partial` is satisfiable) -/
 example : okWith (fun p => p.1.map (fun e => (e.junk, e.all.contains 0xFFFD)) == [(false, true), (true, false), (false, false)]
     && (match Pipe.lookup p.1 (.str [97]) with | .ok e => e.all.contains 0xFFFD | .error _ => false))
-    (Pipe.parseFile .ini exL10n 0) = true := by decide +kernel
+    (Pipe.parseFile default .ini exL10n 0) = true := by decide +kernel
 
 /-- single shared key, evaluated outright: "a=1\n" against "a=�\n" gives exactly one detail, the encoding warning
     `"� in: a at line 1, column 3 for a"`, and the counters errors 0, warnings 1, changed 1 (1 word) -/
 example : okWith (fun r => r.details.map (·.2) == [[(.warning, .data (.str
       [65533, 32, 105, 110, 58, 32, 97, 32, 97, 116, 32, 108, 105, 110, 101, 32, 49, 44, 32, 99, 111, 108, 117, 109, 110, 32, 51, 32, 102, 111, 114, 32, 97]))]]
     && r.summary.map (fun p => p.2.map (·.2)) == [[0, 1, 0, 0, 0, 0, 1, 1, 0, 0, 0]] && r.merge == .copyL10n)
-    (Pipe.compareTexts .ini #[97, 61, 49, 10] #[97, 61, 65533, 10] true) = true := by decide +kernel
+    (Pipe.compareTexts default .ini #[97, 61, 49, 10] #[97, 61, 65533, 10] true) = true := by decide +kernel
 
 /-- properties, evaluated outright: "a=%S\n" against "a=%d\n" with merge staging: one printf error, the entity is skipped
     and the reference entity appended (written file "\n\na=%S\n" after cutting "a=%d") -/
 example : okWith (fun r => r.details.map (fun l => l.2.map (·.1)) == [[.error]]
     && (match r.merge with | .written _ => true | _ => false))
-    (Pipe.compareTexts .properties #[97, 61, 37, 83, 10] #[97, 61, 37, 100, 10] true) = true := by decide +kernel
+    (Pipe.compareTexts default .properties #[97, 61, 37, 83, 10] #[97, 61, 37, 100, 10] true) = true := by decide +kernel
 
 /-- lint of the junk/obsolete/U+FFFD text against the reference: three results (changed `a`… ) never an exception -/
-example : okWith (fun rs => rs.length == 3) (Pipe.lintText .ini (some exRef) exL10n) = true := by decide +kernel
+example : okWith (fun rs => rs.length == 3) (Pipe.lintText default .ini (some exRef) exL10n) = true := by decide +kernel
 
 deriving instance DecidableEq for Except
 
 /-- **negation witness for `NoJunkClashT`**: reference "abc" (one Junk, key `_junk_1_0-3`) against the localization
     "_junk_1_0-3=x": the model raises AttributeError (`Junk` has no `equals`), as the real code does. -/
 theorem junk_key_clash_raises :
-    Pipe.compareTexts .ini #[97, 98, 99] #[95, 106, 117, 110, 107, 95, 49, 95, 48, 45, 51, 61, 120] false
+    Pipe.compareTexts default .ini #[97, 98, 99] #[95, 106, 117, 110, 107, 95, 49, 95, 48, 45, 51, 61, 120] false
       = .error .attributeError := by decide +kernel
 
 /-- … and the decidable condition rejects that pair -/
-example : Pipe.noClashTB .ini #[97, 98, 99] #[95, 106, 117, 110, 107, 95, 49, 95, 48, 45, 51, 61, 120] = false := by
+example : Pipe.noClashTB default .ini #[97, 98, 99] #[95, 106, 117, 110, 107, 95, 49, 95, 48, 45, 51, 61, 120] = false := by
   decide +kernel
 
 /-- the linter does not raise on that pair -/
 example : okWith (fun _ => true)
-    (Pipe.lintText .ini (some #[97, 98, 99]) #[95, 106, 117, 110, 107, 95, 49, 95, 48, 45, 51, 61, 120]) = true := by
+    (Pipe.lintText default .ini (some #[97, 98, 99]) #[95, 106, 117, 110, 107, 95, 49, 95, 48, 45, 51, 61, 120]) = true := by
   decide +kernel
+
+/-! ### DTD: witnesses -/
+
+/-- `<!ENTITY a "x">` -/
+def dtdRef : Array Nat := #[60, 33, 69, 78, 84, 73, 84, 89, 32, 97, 32, 34, 120, 34, 62]
+/-- `<!ENTITY a "\ud800">`: a lone surrogate in the value (no file read by `Parser.readFile` has one) -/
+def dtdSur : Array Nat := #[60, 33, 69, 78, 84, 73, 84, 89, 32, 97, 32, 34, 0xD800, 34, 62]
+/-- `<!-- c -->\n<!ENTITY a "">`: an EMPTY value under a comment line -/
+def dtdEmpty : Array Nat :=
+  #[60, 33, 45, 45, 32, 99, 32, 45, 45, 62, 10, 60, 33, 69, 78, 84, 73, 84, 89, 32, 97, 32, 34, 34, 62]
+
+/-- **negation witness for `TextOK`**: a lone surrogate in a shared DTD value makes `value.encode("utf-8")` raise
+    inside `DTDChecker.check`, which ends the comparison -/
+theorem surrogate_raises : Pipe.compareTexts default .dtd dtdRef dtdSur false = .error .unicodeEncodeError := by
+  decide +kernel
+
+example : ¬ TextOK .dtd dtdSur := by
+  intro h
+  have := h rfl 0xD800 (by decide)
+  revert this; decide
+
+/-- an expat that rejects EVERY document at line 3, column 7 -/
+def rejectAll : Pipe.Ext := { xml := fun _ => ⟨some (3, 7, [120]), []⟩, unescape := fun t => t }
+
+/-- the raise site of the historic IndexError (`lines[lnr - 1]` with `lines == []`: empty value, error reported beyond
+    its lines; fixed by f80b06f): the position arithmetic answers `(0, 0)` … -/
+example : Dtd.errorPos [] 3 7 = some (0, 0) := by decide
+
+/-- … and the whole comparison returns a report with the xmlparse error positioned at the start of the (empty) value:
+    `"x at line 2, column 14 for a"`, after the warning "can't parse en-US value" -/
+example : okWith (fun r => r.details.map (fun l => l.2.map (·.1)) == [[.warning, .error]])
+    (Pipe.compareTexts rejectAll .dtd dtdRef dtdEmpty false) = true := by decide +kernel
+
+/-! ## When can a Junk key equal the key of an entry of the other file?  (`Pipe.NoJunkClashT` made concrete)
+
+`Junk.key = "_junk_%d_%d-%d" % (junkid, start, end)`; the counter runs on from the reference to the localization, the
+format is injective (C18), so two Junks of the two files never share a key: a clash needs an ENTITY whose key text is
+exactly such a key.  Proofs in Proofs/C05Clash.lean. -/
+
+/-- **two Junk objects of the two files never have the same key** (the harness relies on this to tell the known finding
+    F8 from any other AttributeError on a Junk) -/
+theorem junk_keys_differ (ext : Pipe.Ext) (fmt : P.Fmt) (refText l10nText : Array Nat) (ref l10n : List Pipe.PEnt) (n1 n2 : Nat)
+    (hp1 : Pipe.parseFile ext fmt refText 0 = .ok (ref, n1)) (hp2 : Pipe.parseFile ext fmt l10nText n1 = .ok (l10n, n2))
+    (r l : Pipe.PEnt) (hr : r ∈ ref) (hl : l ∈ l10n) (hrj : r.junk = true) (hlj : l.junk = true) : r.key ≠ l.key :=
+  C05Clash.junk_keys_differ (C05Clash.parseFile_ids ext fmt refText 0 n1 ref hp1) (C05Clash.parseFile_ids ext fmt l10nText n1 n2 l10n hp2)
+    r l hr hl hrj hlj
+
+/-- **the hypothesis is decidable on the two texts, exactly**: `clashFree` parses both and looks at the shared keys -/
+theorem clashFree_iff (ext : Pipe.Ext) (fmt : P.Fmt) (refText l10nText : Array Nat) :
+    C05Clash.clashFree ext fmt refText l10nText = true ↔ Pipe.NoJunkClashT ext fmt refText l10nText :=
+  C05Clash.clashFree_iff ext fmt refText l10nText
+
+/-- **a syntactic sufficient condition, on each text alone, independent of the external functions**: no string id
+    begins with `_junk_` (`entityKeysOK`; gettext ids are tuples: nothing to check) -/
+theorem noClash_of_keys (ext : Pipe.Ext) (fmt : P.Fmt) (refText l10nText : Array Nat)
+    (h1 : C05Clash.entityKeysOK fmt refText = true) (h2 : C05Clash.entityKeysOK fmt l10nText = true) :
+    Pipe.NoJunkClashT ext fmt refText l10nText :=
+  C05Clash.noJunkClashT_of_keys ext fmt refText l10nText h1 h2
+
+/-- **compare never raises**, with the decidable hypothesis in place of the abstract one: all texts whose string ids
+    do not begin with `_junk_` (for dtd: scalar texts), any file, any observers, with or without merge, every `ext` -/
+theorem compare_never_raises (ext : Pipe.Ext) (fmt : P.Fmt) (file : ObsM.File) (hm : ObsM.Modelled file)
+    (q : Nat) (flts : List (Option ObsM.Filter)) (refText l10nText : Array Nat) (mergeOn : Bool)
+    (hs1 : TextOK fmt refText) (hs2 : TextOK fmt l10nText)
+    (hk1 : C05Clash.entityKeysOK fmt refText = true) (hk2 : C05Clash.entityKeysOK fmt l10nText = true) :
+    ∃ r, Pipe.compareFiles ext fmt file (ObsM.ObsList.init q (flts.map (ObsM.Obs.init q))) refText l10nText mergeOn = .ok r :=
+  compare_never_raises_partial ext fmt file hm q flts refText l10nText mergeOn hs1 hs2 (noClash_of_keys ext fmt _ _ hk1 hk2)
+
+/-- **gettext: compare never raises, no hypothesis at all** (keys are tuples, a Junk key is a `str`) -/
+theorem compare_never_raises_po (ext : Pipe.Ext) (file : ObsM.File) (hm : ObsM.Modelled file)
+    (q : Nat) (flts : List (Option ObsM.Filter)) (refText l10nText : Array Nat) (mergeOn : Bool) :
+    ∃ r, Pipe.compareFiles ext .po file (ObsM.ObsList.init q (flts.map (ObsM.Obs.init q))) refText l10nText mergeOn = .ok r :=
+  compare_never_raises ext .po file hm q flts refText l10nText mergeOn (textOK_of_ne (by simp) _) (textOK_of_ne (by simp) _) rfl rfl
+
+/-- the DTD pair with the empty value: the theorems apply for EVERY expat and every `html.unescape` -/
+example (ext : Pipe.Ext) (m : Bool) : ∃ r, Pipe.compareTexts ext .dtd dtdRef dtdEmpty m = .ok r :=
+  compare_never_raises ext .dtd _ (stdFile_modelled .dtd) 0 [none] dtdRef dtdEmpty m
+    (fun _ c hc => by revert c hc; decide) (fun _ c hc => by revert c hc; decide) (by decide +kernel) (by decide +kernel)
+
+/-- the syntactic condition rejects the clash pair, as it must -/
+example : C05Clash.entityKeysOK .ini #[95, 106, 117, 110, 107, 95, 49, 95, 48, 45, 51, 61, 120] = false := by decide +kernel
+
+/-! ## From the BYTES of the files (`Pipe.decode` = `Parser.readFile`, Compare/Decode.lean)
+
+`readFile` opens with encoding "utf-8", errors="replace", newline=None.  Proofs in Proofs/C05Decode.lean. -/
+
+/-- **universal newlines**: the decoded text has no carriage return at all ("\r\n" and every lone "\r" became "\n") -/
+theorem decode_no_cr (bytes : List Nat) : 13 ∉ Pipe.decode bytes := C05Dec.decode_no_cr bytes
+
+/-- **the decoded text holds Unicode scalar values only** (no surrogate, nothing above U+10FFFF): what the DTD checker
+    needs to encode pieces of it again -/
+theorem decode_scalar (bytes : List Nat) : C05Dtd.ScalarText (Pipe.decode bytes) := C05Dec.decode_scalar bytes
+
+/-- **every ill-formed byte sequence leaves a U+FFFD**: if the UTF-8 decoding of the bytes has no U+FFFD, the bytes are
+    the UTF-8 encoding of that text (nothing was replaced or dropped silently) … -/
+theorem no_ufffd_wellformed (bytes : List Nat) (h : 0xFFFD ∉ Pipe.utf8Decode bytes) :
+    Dtd.utf8 (Pipe.utf8Decode bytes) = some bytes := C05Dec.wellformed_of_no_ufffd bytes h
+
+/-- … and at its place: after a well-formed prefix, a rest that does not begin with the encoding of a scalar value is
+    decoded to U+FFFD for its first 1 to 3 bytes (the maximal ill-formed subsequence as CPython delimits it), then the
+    decoding of what follows them -/
+theorem invalid_yields_ufffd (t e r : List Nat) (h : Dtd.utf8 t = some e) (hr : r ≠ [])
+    (hbad : ¬ ∃ c ec tail, Dtd.utf8Char c = some ec ∧ r = ec ++ tail) :
+    ∃ k, 1 ≤ k ∧ k ≤ 3 ∧ k ≤ r.length ∧ Pipe.utf8Decode (e ++ r) = t ++ 0xFFFD :: Pipe.utf8Decode (r.drop k) :=
+  C05Dec.invalid_yields_ufffd t e r h hr hbad
+
+/-- **decoding inverts encoding**: well-formed bytes are decoded to the text they encode -/
+theorem decode_encode (t e : List Nat) (h : Dtd.utf8 t = some e) : Pipe.utf8Decode e = t := C05Dec.decode_encode t e h
+
+theorem textOK_decode (fmt : P.Fmt) (bytes : List Nat) : TextOK fmt (Pipe.decode bytes).toArray :=
+  fun _ => by simpa using decode_scalar bytes
+
+/-- **compare never raises, from the bytes of the two files** — any byte strings (invalid UTF-8 included), every
+    format with a regex parser, every expat / `html.unescape`; the hypothesis on junk keys is the only one left -/
+theorem compare_never_raises_bytes_partial (ext : Pipe.Ext) (fmt : P.Fmt) (file : ObsM.File) (hm : ObsM.Modelled file)
+    (q : Nat) (flts : List (Option ObsM.Filter)) (refBytes l10nBytes : List Nat) (mergeOn : Bool)
+    (hnc : Pipe.NoJunkClashT ext fmt (Pipe.decode refBytes).toArray (Pipe.decode l10nBytes).toArray) :
+    ∃ r, Pipe.compareBytes ext fmt file (ObsM.ObsList.init q (flts.map (ObsM.Obs.init q))) refBytes l10nBytes mergeOn = .ok r :=
+  compare_never_raises_partial ext fmt file hm q flts _ _ mergeOn (textOK_decode fmt refBytes) (textOK_decode fmt l10nBytes) hnc
+
+/-- **lint never raises, from the bytes**: no hypothesis at all -/
+theorem lint_never_raises_bytes (ext : Pipe.Ext) (fmt : P.Fmt) (refBytes : Option (List Nat)) (curBytes : List Nat) :
+    ∃ rs, Pipe.lintBytes ext fmt refBytes curBytes = .ok rs :=
+  lint_never_raises ext fmt _ _ (textOK_decode fmt curBytes)
+
+/-- **U+FFFD is warned, end to end from the bytes**: the report of `compareBytes` has the "� in: <key>" warning for
+    every shared key whose last localized entry's text contains U+FFFD — and by `no_ufffd_wellformed` /
+    `invalid_yields_ufffd` every ill-formed byte sequence inside an entry puts one there -/
+theorem ufffd_warned_from_bytes_partial (ext : Pipe.Ext) (fmt : P.Fmt) (refBytes l10nBytes : List Nat) (mergeOn : Bool)
+    (hnc : Pipe.NoJunkClashT ext fmt (Pipe.decode refBytes).toArray (Pipe.decode l10nBytes).toArray) :
+    ∃ r ref n1 l10n n2,
+      Pipe.compareBytes ext fmt (Pipe.stdFile fmt) Pipe.stdObs refBytes l10nBytes mergeOn = .ok r ∧
+      Pipe.parseFile ext fmt (Pipe.decode refBytes).toArray 0 = .ok (ref, n1) ∧
+      Pipe.parseFile ext fmt (Pipe.decode l10nBytes).toArray n1 = .ok (l10n, n2) ∧
+      ∀ k refent l10nent, Pipe.lookup ref k = .ok refent → Pipe.lookup l10n k = .ok l10nent → 0xFFFD ∈ l10nent.all →
+        ∃ leaf ∈ r.details, ∃ line col : Int,
+          (ObsM.Cat.warning, ObsM.DVal.data (.str (Pipe.checkMsg (Pipe.encPrefix ++ Pipe.keyText l10nent.key) line col refent.key)))
+            ∈ leaf.2 :=
+  ufffd_warned_end_to_end_partial ext fmt _ _ mergeOn (textOK_decode fmt refBytes) (textOK_decode fmt l10nBytes) hnc
+
+/-- bytes `61 3D C3 28 0D 0A` ("a=", a lead byte without continuation, "(", CR LF) decode to "a=�(\n" -/
+example : Pipe.decode [0x61, 0x3D, 0xC3, 0x28, 0x0D, 0x0A] = [0x61, 0x3D, 0xFFFD, 0x28, 0x0A] := by decide
+
+/-- a byte order mark is kept as U+FEFF (the encoding is "utf-8", not "utf-8-sig") -/
+example : Pipe.decode [0xEF, 0xBB, 0xBF, 0x61] = [0xFEFF, 0x61] := by decide
+
+/-- an encoded surrogate (ED A0 80) is three errors, never a surrogate -/
+example : Pipe.decode [0xED, 0xA0, 0x80] = [0xFFFD, 0xFFFD, 0xFFFD] := by decide
+
+/-! ## Fluent and Android: from the external parser's output on
+
+`Pipe.compareFtl` / `Pipe.compareAndroid` take what `fluent.syntax` / `xml.dom.minidom` returned (entry kinds with spans
+and the AST summary of C08's model; the objects of the walk over the DOM with the node summary of C09's model) and do
+the rest: entries, junk ids, keys, `FluentChecker.check` / `AndroidChecker.check`, the comparison core, the report.
+Input contract: a Message / Term of the body carries its AST (`FtlBodyOK`).  Proofs in Proofs/C05Ext.lean. -/
+
+/-- the comparison core never raises and reports well-formed details, for ANY checker environment whose checker
+    answers (`CheckerOK`), without a junk-key clash, and with spans to cut when merging -/
+theorem parsed_never_raises (env : Pipe.Env) (hm : ObsM.Modelled env.file) (q : Nat) (flts : List (Option ObsM.Filter))
+    (ref l10n : List Pipe.PEnt) (hck : Pipe.CheckerOK env ref l10n) (hnc : Pipe.NoJunkClash env.ck.kind ref l10n)
+    (hsp : env.mergeOn = true → env.cls ≠ .node) :
+    ∃ obs' outcome, Pipe.compareParsed env ref l10n (ObsM.ObsList.init q (flts.map (ObsM.Obs.init q))) = .ok (obs', outcome) ∧
+      ∀ leaf ∈ (Pipe.reportOf obs' outcome).details, ∀ d ∈ leaf.2, DetailWF d := by
+  obtain ⟨obs', outcome, evs, stats, hcmp, hreach, hwf, _⟩ :=
+    Pipe.compareParsed_spec env (Pipe.fresh_init q flts) hm ref l10n hck hnc hsp merge_no_type_error
+  refine ⟨obs', outcome, hcmp, ?_⟩
+  intro leaf hleaf d hd
+  obtain ⟨cat, f, data, rv, hev, rfl⟩ := Pipe.report_details_from_history q flts env.file hm _ obs' hreach outcome leaf hleaf d hd
+  simp only [List.mem_append, List.mem_singleton] at hev
+  rcases hev with hev | hev
+  · have := hwf _ hev
+    simp only [Pipe.EvWF] at this
+    rcases this with ⟨hc, t, rfl, hs⟩ | ⟨hc, k, rfl⟩
+    · have hnf : cat.isFile = false := by rcases hc with rfl | rfl <;> rfl
+      exact Or.inl ⟨by simpa [ObsM.detailOf, hnf] using hc, t, by simp [ObsM.detailOf, hnf], hs⟩
+    · have hnf : cat.isFile = false := by rcases hc with rfl | rfl <;> rfl
+      exact Or.inr ⟨by simpa [ObsM.detailOf, hnf] using hc, k, by simp [ObsM.detailOf, hnf]⟩
+  · cases hev
+
+/-- the comparison core warns about every U+FFFD of a shared entity, for any environment whose checker yields the
+    results of the base check (one unfiltered observer) -/
+theorem parsed_ufffd_warned (env : Pipe.Env) (hm : ObsM.Modelled env.file) (ref l10n : List Pipe.PEnt)
+    (hck : Pipe.CheckerOK env ref l10n) (hnc : Pipe.NoJunkClash env.ck.kind ref l10n)
+    (hsp : env.mergeOn = true → env.cls ≠ .node)
+    (hbase : ∀ r ∈ ref, ∀ l ∈ l10n, r.junk = false → (env.ck.kind ≠ .base → l.junk = false) →
+      ∀ rs, Pipe.runChecker env.ck r l = .ok rs → ∀ b ∈ Pipe.runBase l, b ∈ rs) :
+    ∃ obs' outcome, Pipe.compareParsed env ref l10n Pipe.stdObs = .ok (obs', outcome) ∧
+      ∀ k refent l10nent, Pipe.lookup ref k = .ok refent → Pipe.lookup l10n k = .ok l10nent → 0xFFFD ∈ l10nent.all →
+        ∃ leaf ∈ (Pipe.reportOf obs' outcome).details, ∃ line col : Int,
+          (ObsM.Cat.warning, ObsM.DVal.data (.str (Pipe.checkMsg (Pipe.encPrefix ++ Pipe.keyText l10nent.key) line col refent.key)))
+            ∈ leaf.2 := by
+  obtain ⟨obs', outcome, evs, stats, hcmp, hreach, _, hall⟩ :=
+    Pipe.compareParsed_spec env (Pipe.fresh_init 0 [none]) hm ref l10n hck hnc hsp merge_no_type_error
+  refine ⟨obs', outcome, hcmp, ?_⟩
+  intro k refent l10nent hlr hll hff
+  obtain ⟨hrm, _, hkr⟩ := Pipe.lookup_ok hlr
+  obtain ⟨hlm, _, hkl⟩ := Pipe.lookup_ok hll
+  have hkmem : k ∈ (AR.addRemove (ref.map (·.key)) (l10n.map (·.key))).map (·.2) :=
+    (AR.addRemove_keys_mem_gen _ _ k).2 (Or.inl hkr)
+  obtain ⟨p, hp, hpk⟩ := List.mem_map.1 hkmem
+  have hlab := AR.addRemove_labels_gen _ _ p hp
+  have hc1 : (ref.map (·.key)).contains k = true := by simpa using hkr
+  have hc2 : (l10n.map (·.key)).contains k = true := by simpa using hkl
+  rw [hpk] at hlab
+  simp only [AR.lab, hc1, hc2, if_true] at hlab
+  obtain ⟨evp, hse, hsub⟩ := hall p hp
+  obtain ⟨refent', l10nent', rs, hlr', hll', hrs, hevp⟩ := hse hlab
+  rw [hpk] at hlr' hll'
+  rw [hlr] at hlr'; cases hlr'
+  rw [hll] at hll'; cases hll'
+  obtain ⟨hrj, hlj⟩ := hnc k hkr hkl
+  have hb := hbase refent hrm l10nent hlm (hrj _ hlr) (fun hp => hlj hp _ hll) rs hrs
+  obtain ⟨br, hbr, hsev, _⟩ := ufffd_warned l10nent.all.toArray (by simpa using hff)
+  obtain ⟨lc, hlc⟩ := Pipe.resolve_entityPos env.l10nText env.cls l10nent (br.pos : Int)
+  have hev : ObsM.Ev.notify .warning env.file
+      (.str (Pipe.checkMsg (Pipe.encPrefix ++ Pipe.keyText l10nent.key) lc.1 lc.2 refent.key)) ∈ evp := by
+    rw [hevp]
+    simp only [List.mem_filterMap]
+    refine ⟨{ sev := br.severity, pos := .entityPos (br.pos : Int), msg := Pipe.encPrefix ++ Pipe.keyText l10nent.key, cat := Pipe.encCat }, ?_, ?_⟩
+    · apply hb
+      simp only [Pipe.runBase, List.mem_map]
+      exact ⟨br, hbr, rfl⟩
+    · simp only [Pipe.checkEv, hlc, Option.map_some, hsev, Pipe.sevCat]
+  obtain ⟨leaf, hleaf, hd⟩ := Pipe.report_has_detail env.file hm _ obs' hreach outcome .warning _
+    (List.mem_append_left _ (hsub _ hev)) (Or.inr (Or.inl rfl))
+  exact ⟨leaf, hleaf, lc.1, lc.2, hd⟩
+
+/-- **Fluent: compare never raises and the report is well formed**, for every text, every body `fluent.syntax` can
+    return under the contract, every locale (C08.check_total), any file / observers / filters, with or without merge —
+    unless a key is shared with a Junk of the other file -/
+theorem compare_ftl_never_raises_partial (file : ObsM.File) (hm : ObsM.Modelled file) (q : Nat) (flts : List (Option ObsM.Filter))
+    (refText l10nText : Array Nat) (refBody l10nBody : List Pipe.FtlItem) (mergeOn : Bool)
+    (hb1 : C05Ext.FtlBodyOK refBody) (hb2 : C05Ext.FtlBodyOK l10nBody)
+    (hnc : Pipe.NoJunkClash .fluent (Pipe.parseFtl refText refBody 0).1
+      (Pipe.parseFtl l10nText l10nBody (Pipe.parseFtl refText refBody 0).2).1) :
+    ∃ r, Pipe.compareFtl file (ObsM.ObsList.init q (flts.map (ObsM.Obs.init q))) l10nText refText refBody l10nBody mergeOn = .ok r ∧
+      ∀ leaf ∈ r.details, ∀ d ∈ leaf.2, DetailWF d := by
+  obtain ⟨_, hw1, _⟩ := C05Ext.parseFtl_spec refText refBody 0 hb1
+  obtain ⟨_, hw2, _⟩ := C05Ext.parseFtl_spec l10nText l10nBody (Pipe.parseFtl refText refBody 0).2 hb2
+  obtain ⟨obs', outcome, h, hwf⟩ := parsed_never_raises (Pipe.ftlEnv file mergeOn l10nText) hm q flts _ _
+    (C05Ext.checkerOK_ftl file mergeOn l10nText _ _ hw1 hw2) hnc (fun _ => by simp [Pipe.ftlEnv])
+  exact ⟨_, by simp only [Pipe.compareFtl, Pipe.compareFtlP, h], hwf⟩
+
+/-- the junk-key hypothesis follows from a contract on the ids: no Message / Term key begins with `_junk_` (Fluent
+    identifiers begin with a letter, Term keys with `-`) -/
+theorem ftl_noClash_of_keys (refText l10nText : Array Nat) (refBody l10nBody : List Pipe.FtlItem)
+    (hb1 : C05Ext.FtlBodyOK refBody) (hb2 : C05Ext.FtlBodyOK l10nBody)
+    (hk1 : C05Clash.NoJunkLike (Pipe.parseFtl refText refBody 0).1)
+    (hk2 : C05Clash.NoJunkLike (Pipe.parseFtl l10nText l10nBody (Pipe.parseFtl refText refBody 0).2).1) :
+    Pipe.NoJunkClash .fluent (Pipe.parseFtl refText refBody 0).1
+      (Pipe.parseFtl l10nText l10nBody (Pipe.parseFtl refText refBody 0).2).1 := by
+  obtain ⟨_, _, hi1⟩ := C05Ext.parseFtl_spec refText refBody 0 hb1
+  obtain ⟨_, _, hi2⟩ := C05Ext.parseFtl_spec l10nText l10nBody (Pipe.parseFtl refText refBody 0).2 hb2
+  exact C05Clash.noJunkClash_of_keys hi1 hi2 hk1 hk2 _
+
+/-- **Fluent: U+FFFD is warned, end to end** -/
+theorem ufffd_warned_ftl_partial (refText l10nText : Array Nat) (refBody l10nBody : List Pipe.FtlItem) (mergeOn : Bool)
+    (hb1 : C05Ext.FtlBodyOK refBody) (hb2 : C05Ext.FtlBodyOK l10nBody)
+    (hnc : Pipe.NoJunkClash .fluent (Pipe.parseFtl refText refBody 0).1
+      (Pipe.parseFtl l10nText l10nBody (Pipe.parseFtl refText refBody 0).2).1) :
+    ∃ r, Pipe.compareFtl (Pipe.fileNamed Pipe.ftlFileName) Pipe.stdObs l10nText refText refBody l10nBody mergeOn = .ok r ∧
+      ∀ k refent l10nent, Pipe.lookup (Pipe.parseFtl refText refBody 0).1 k = .ok refent →
+        Pipe.lookup (Pipe.parseFtl l10nText l10nBody (Pipe.parseFtl refText refBody 0).2).1 k = .ok l10nent →
+        0xFFFD ∈ l10nent.all →
+        ∃ leaf ∈ r.details, ∃ line col : Int,
+          (ObsM.Cat.warning, ObsM.DVal.data (.str (Pipe.checkMsg (Pipe.encPrefix ++ Pipe.keyText l10nent.key) line col refent.key)))
+            ∈ leaf.2 := by
+  have hm : ObsM.Modelled (Pipe.fileNamed Pipe.ftlFileName) := by intro m hmod; simp [Pipe.fileNamed] at hmod
+  obtain ⟨_, hw1, _⟩ := C05Ext.parseFtl_spec refText refBody 0 hb1
+  obtain ⟨_, hw2, _⟩ := C05Ext.parseFtl_spec l10nText l10nBody (Pipe.parseFtl refText refBody 0).2 hb2
+  obtain ⟨obs', outcome, h, hall⟩ := parsed_ufffd_warned (Pipe.ftlEnv (Pipe.fileNamed Pipe.ftlFileName) mergeOn l10nText) hm _ _
+    (C05Ext.checkerOK_ftl _ mergeOn l10nText _ _ hw1 hw2) hnc (fun _ => by simp [Pipe.ftlEnv]) (by
+      intro r hr l hl hrj hlj rs hrs
+      obtain ⟨rs', h1, _, h3⟩ := C05Ext.runFluent_ok (Pipe.fileNamed Pipe.ftlFileName).locale r l (hw1 r hr) (hw2 l hl) hrj
+        (hlj (by simp [Pipe.ftlEnv]))
+      have : Pipe.runChecker (Pipe.ftlEnv (Pipe.fileNamed Pipe.ftlFileName) mergeOn l10nText).ck r l
+          = Pipe.runFluent (Pipe.fileNamed Pipe.ftlFileName).locale r l := rfl
+      rw [this, h1] at hrs
+      cases hrs
+      exact h3)
+  exact ⟨_, by simp only [Pipe.compareFtl, Pipe.compareFtlP, h], hall⟩
+
+/-- **Android: compare never raises and the report is well formed WITHOUT merge staging**, for every list of objects
+    the walk over the DOM can yield, any file / observers / filters — unless a key is shared with an XMLJunk of the
+    other file.  With merge staging the statement is false: known finding F5-android-no-spans-raise
+    (`android_merge_raises`). -/
+theorem compare_android_never_raises_partial (file : ObsM.File) (hm : ObsM.Modelled file) (q : Nat)
+    (flts : List (Option ObsM.Filter)) (l10nText : Array Nat) (refItems l10nItems : List Pipe.AItem)
+    (hnc : Pipe.NoJunkClash .android (Pipe.parseAndroid refItems 0).1
+      (Pipe.parseAndroid l10nItems (Pipe.parseAndroid refItems 0).2).1) :
+    ∃ r, Pipe.compareAndroid file (ObsM.ObsList.init q (flts.map (ObsM.Obs.init q))) l10nText refItems l10nItems false = .ok r ∧
+      ∀ leaf ∈ r.details, ∀ d ∈ leaf.2, DetailWF d := by
+  obtain ⟨_, hw1, _⟩ := C05Ext.parseAndroid_spec refItems 0
+  obtain ⟨_, hw2, _⟩ := C05Ext.parseAndroid_spec l10nItems (Pipe.parseAndroid refItems 0).2
+  obtain ⟨obs', outcome, h, hwf⟩ := parsed_never_raises (Pipe.androidEnv file false l10nText) hm q flts _ _
+    (C05Ext.checkerOK_android file false l10nText _ _ hw1 hw2) hnc (fun h => by simp [Pipe.androidEnv] at h)
+  exact ⟨_, by simp only [Pipe.compareAndroid, h], hwf⟩
+
+/-- **Android: U+FFFD is warned, end to end** (without merge staging) -/
+theorem ufffd_warned_android_partial (l10nText : Array Nat) (refItems l10nItems : List Pipe.AItem)
+    (hnc : Pipe.NoJunkClash .android (Pipe.parseAndroid refItems 0).1
+      (Pipe.parseAndroid l10nItems (Pipe.parseAndroid refItems 0).2).1) :
+    ∃ r, Pipe.compareAndroid (Pipe.fileNamed Pipe.androidFileName) Pipe.stdObs l10nText refItems l10nItems false = .ok r ∧
+      ∀ k refent l10nent, Pipe.lookup (Pipe.parseAndroid refItems 0).1 k = .ok refent →
+        Pipe.lookup (Pipe.parseAndroid l10nItems (Pipe.parseAndroid refItems 0).2).1 k = .ok l10nent →
+        0xFFFD ∈ l10nent.all →
+        ∃ leaf ∈ r.details, ∃ line col : Int,
+          (ObsM.Cat.warning, ObsM.DVal.data (.str (Pipe.checkMsg (Pipe.encPrefix ++ Pipe.keyText l10nent.key) line col refent.key)))
+            ∈ leaf.2 := by
+  have hm : ObsM.Modelled (Pipe.fileNamed Pipe.androidFileName) := by intro m hmod; simp [Pipe.fileNamed] at hmod
+  obtain ⟨_, hw1, _⟩ := C05Ext.parseAndroid_spec refItems 0
+  obtain ⟨_, hw2, _⟩ := C05Ext.parseAndroid_spec l10nItems (Pipe.parseAndroid refItems 0).2
+  obtain ⟨obs', outcome, h, hall⟩ := parsed_ufffd_warned (Pipe.androidEnv (Pipe.fileNamed Pipe.androidFileName) false l10nText) hm _ _
+    (C05Ext.checkerOK_android _ false l10nText _ _ hw1 hw2) hnc (fun h => by simp [Pipe.androidEnv] at h) (by
+      intro r hr l hl hrj hlj rs hrs
+      obtain ⟨rs', h1, _, h3⟩ := C05Ext.runAndroid_ok r l (hw1 r hr) (hw2 l hl) hrj (hlj (by simp [Pipe.androidEnv]))
+      have : Pipe.runChecker (Pipe.androidEnv (Pipe.fileNamed Pipe.androidFileName) false l10nText).ck r l
+          = Pipe.runAndroid r l := rfl
+      rw [this, h1] at hrs
+      cases hrs
+      exact h3)
+  exact ⟨_, by simp only [Pipe.compareAndroid, h], hall⟩
+
+/-- the junk-key hypothesis for Android from the `name` attributes: none begins with `_junk_` -/
+theorem android_noClash_of_keys (refItems l10nItems : List Pipe.AItem)
+    (hk1 : C05Clash.NoJunkLike (Pipe.parseAndroid refItems 0).1)
+    (hk2 : C05Clash.NoJunkLike (Pipe.parseAndroid l10nItems (Pipe.parseAndroid refItems 0).2).1) :
+    Pipe.NoJunkClash .android (Pipe.parseAndroid refItems 0).1
+      (Pipe.parseAndroid l10nItems (Pipe.parseAndroid refItems 0).2).1 := by
+  obtain ⟨_, _, hi1⟩ := C05Ext.parseAndroid_spec refItems 0
+  obtain ⟨_, _, hi2⟩ := C05Ext.parseAndroid_spec l10nItems (Pipe.parseAndroid refItems 0).2
+  exact C05Clash.noJunkClash_of_keys hi1 hi2 hk1 hk2 _
+
+/-- **negation witness (known finding F5-android-no-spans-raise)**: with merge staging, two localized AndroidEntities
+    collected in `skips` (each has a check error; their `span` is `(None, None)`) make
+    `skips.sort(key=lambda s: s.span[0])` compare `None` with `None`: the merge call of the model raises TypeError,
+    whatever the file contents and the reference.  (A whole-comparison instance needs two keys, which `decide` cannot
+    evaluate — see above; the harness shows it on the real code.) -/
+theorem android_merge_raises (file : ObsM.File) (l10nText : Array Nat) (ref : List Pipe.PEnt) (a b : Pipe.PEnt)
+    (ha : a.junk = false) (hb : b.junk = false) (hka : a.key ∈ ref.map (·.key)) (hkb : b.key ∈ ref.map (·.key)) :
+    Pipe.doMerge (Pipe.androidEnv file true l10nText) ref [] [a, b] = .error .typeError := by
+  obtain ⟨ta, hta⟩ := Pipe.refAllOf_ok ref a.key hka
+  obtain ⟨tb, htb⟩ := Pipe.refAllOf_ok ref b.key hkb
+  simp [Pipe.doMerge, Pipe.androidEnv, Pipe.mapE, Pipe.mkSkip, Pipe.spanOf, ha, hb, hta, htb, Merge.merge, Merge.sortSkips,
+    Merge.hasCap, Gen.Tables.cap_android, Gen.Tables.CAN_NONE, Gen.Tables.CAN_COPY, Gen.Tables.CAN_SKIP]
+
+/-- **Android: lint never raises**, no hypothesis: for every list of objects the walk can yield, with or without a
+    reference (AndroidEntity / XMLJunk positions are `(0, offset)`, `Entity.equals` reads key and val only) -/
+theorem lint_android_never_raises (refItems : Option (List Pipe.AItem)) (curText : Array Nat) (curItems : List Pipe.AItem) :
+    ∃ rs, Pipe.lintAndroid refItems curText curItems = .ok rs := by
+  have key : ∀ (reference : Option (List Pipe.PEnt)) (n : Nat),
+      ∃ rs, Pipe.lintParsed default Pipe.androidFileName .android .node reference curText (Pipe.parseAndroid curItems n).1 = .ok rs := by
+    intro reference n
+    obtain ⟨_, hw, _⟩ := C05Ext.parseAndroid_spec curItems n
+    refine Pipe.lintParsed_ok default _ _ _ reference curText _ ?_ (by simp [Pipe.lintJunkClash]) ?_
+    · intro e he hj
+      rcases (hw e he).kind with ⟨h, _⟩ | ⟨_, h, _⟩
+      · rw [hj] at h; cases h
+      · exact h
+    · intro e he hj
+      obtain ⟨rs, h1, h2, _⟩ := C05Ext.runAndroid_ok e e (hw e he) (hw e he) hj hj
+      exact ⟨rs, h1, h2⟩
+  unfold Pipe.lintAndroid
+  cases refItems with
+  | none => exact key none 0
+  | some items => exact key _ _
+
+/-- **Fluent: lint never raises** under the input contract, unless a FluentEntity shares its key with a Junk of the
+    reference (`lintJunkClash`, decidable: `current_entity.equals(reference_entity)` reads `other.entry`) -/
+theorem lint_ftl_never_raises_partial (refT : Option (Array Nat × List Pipe.FtlItem)) (curText : Array Nat)
+    (curBody : List Pipe.FtlItem) (hb : C05Ext.FtlBodyOK curBody)
+    (hclash : ∀ t body, refT = some (t, body) →
+      Pipe.lintJunkClash .fluent (Pipe.parseFtl t body 0).1 (Pipe.parseFtl curText curBody (Pipe.parseFtl t body 0).2).1 = false) :
+    ∃ rs, Pipe.lintFtl refT curText curBody = .ok rs := by
+  have key : ∀ (reference : Option (List Pipe.PEnt)) (n : Nat),
+      Pipe.lintJunkClash .fluent (Pipe.refList reference) (Pipe.parseFtl curText curBody n).1 = false →
+      ∃ rs, Pipe.lintParsed default Pipe.ftlFileName .fluent .fluent reference curText (Pipe.parseFtl curText curBody n).1 = .ok rs := by
+    intro reference n hc
+    obtain ⟨_, hw, _⟩ := C05Ext.parseFtl_spec curText curBody n hb
+    refine Pipe.lintParsed_ok default _ _ _ reference curText _ ?_ hc ?_
+    · intro e he hj
+      rcases (hw e he).kind with ⟨h, _⟩ | ⟨_, h, _⟩
+      · rw [hj] at h; cases h
+      · exact h
+    · intro e he hj
+      obtain ⟨rs, h1, h2, _⟩ := C05Ext.runFluent_ok (some Pipe.referenceLocale) e e (hw e he) (hw e he) hj hj
+      exact ⟨rs, h1, h2⟩
+  unfold Pipe.lintFtl
+  cases refT with
+  | none => exact key none 0 (by simp [Pipe.lintJunkClash, Pipe.refList, Pipe.lookup, AR.keyedIndex_eq])
+  | some p =>
+    obtain ⟨t, body⟩ := p
+    exact key _ _ (hclash t body rfl)
+
+/-! ## Whole files: `ContentComparer.add` and `ContentComparer.remove` -/
+
+theorem notify_total (file : ObsM.File) (hm : ObsM.Modelled file) (q : Nat) (flts : List (Option ObsM.Filter))
+    (cat : ObsM.Cat) (d : ObsM.Data) :
+    ∃ p, (ObsM.ObsList.init q (flts.map (ObsM.Obs.init q))).notify cat file d = .ok p := by
+  let env : Pipe.Env := { caps := 0, cls := .plain, ck := { kind := .base, locale := none }, file := file, mergeOn := false, l10nText := #[] }
+  obtain ⟨l', rv, h, _⟩ := Pipe.notify_spec env (Pipe.fresh_init q flts) hm (Pipe.Reach.nil _ _) cat d
+  simp only [Pipe.notify] at h
+  cases hn : (ObsM.ObsList.init q (flts.map (ObsM.Obs.init q))).notify cat file d with
+  | error e => simp [env, hn] at h
+  | ok p => exact ⟨p, rfl⟩
+
+/-- **`ContentComparer.remove` never raises** (any file the observers can address, any filters) -/
+theorem remove_never_raises (file : ObsM.File) (hm : ObsM.Modelled file) (q : Nat) (flts : List (Option ObsM.Filter)) (mergeOn : Bool) :
+    ∃ r, Pipe.removeFile file (ObsM.ObsList.init q (flts.map (ObsM.Obs.init q))) mergeOn = .ok r := by
+  obtain ⟨p, hp⟩ := notify_total file hm q flts .obsoleteFile .none
+  unfold Pipe.removeFile
+  simp only [hp]
+  exact ⟨_, rfl⟩
+
+/-- **`ContentComparer.add` never raises** for every text of a format with a regex parser, any file, any filters,
+    every `ext`: the `try … except Exception` around `readFile` / `parse` is never needed -/
+theorem add_never_raises (ext : Pipe.Ext) (fmt : P.Fmt) (file : ObsM.File) (hm : ObsM.Modelled file) (q : Nat)
+    (flts : List (Option ObsM.Filter)) (refText : Array Nat) (mergeOn : Bool) :
+    ∃ r, Pipe.addFile ext fmt file (ObsM.ObsList.init q (flts.map (ObsM.Obs.init q))) refText mergeOn = .ok r := by
+  obtain ⟨p, hp⟩ := notify_total file hm q flts .missingFile .none
+  obtain ⟨ents, n, hpf, _⟩ := Pipe.parseFile_ok ext fmt refText 0 (parse_never_stuck fmt refText)
+  unfold Pipe.addFile
+  simp only [hp, hpf]
+  split <;> exact ⟨_, rfl⟩
+
+/-- **Fluent, when the external parser RAISES** (e.g. RecursionError on ~200 nested placeables): `lint_file` reports
+    the one error entry (line 1, column 1, level "error", `str(e)`), whichever file made the parser raise … -/
+theorem lint_ftl_parser_raises (t : Array Nat) (name : String) (msg : Pipe.Text) (curText : Array Nat) (cur : Pipe.FtlParse) :
+    Pipe.lintFtlP (some (t, .raises name msg)) curText cur = .ok [Pipe.lintParseError msg] ∧
+    Pipe.lintFtlP none curText (.raises name msg) = .ok [Pipe.lintParseError msg] ∧
+    ∀ rb, Pipe.lintFtlP (some (t, .body rb)) curText (.raises name msg) = .ok [Pipe.lintParseError msg] :=
+  ⟨rfl, rfl, fun _ => rfl⟩
+
+/-- … and `compare` reports it as an "error" detail — for the reference on `ref_file` (upstream fix d91dd73: `parse()` of
+    the reference is inside the `try` now), for the localization on `l10n` — and then neither merges nor counts -/
+theorem compare_ftl_parser_raises (refFile file : ObsM.File) (hmr : ObsM.Modelled refFile) (hm : ObsM.Modelled file) (q : Nat)
+    (flts : List (Option ObsM.Filter)) (refText l10nText : Array Nat) (name : String) (msg : Pipe.Text) (mergeOn : Bool) :
+    (∀ l10n, ∃ r, Pipe.compareFtlP refFile file (ObsM.ObsList.init q (flts.map (ObsM.Obs.init q))) l10nText refText
+      (.raises name msg) l10n mergeOn = .ok r ∧ r.merge = .nothing) ∧
+    (∀ refBody, ∃ r, Pipe.compareFtlP refFile file (ObsM.ObsList.init q (flts.map (ObsM.Obs.init q))) l10nText refText
+      (.body refBody) (.raises name msg) mergeOn = .ok r ∧ r.merge = .nothing) := by
+  obtain ⟨p1, hp1⟩ := notify_total refFile hmr q flts .error (.str msg)
+  obtain ⟨p2, hp2⟩ := notify_total file hm q flts .error (.str msg)
+  constructor
+  · intro l10n
+    refine ⟨Pipe.reportOf p1.1 .nothing, ?_, rfl⟩
+    simp only [Pipe.compareFtlP, hp1]
+  · intro refBody
+    refine ⟨Pipe.reportOf p2.1 .nothing, ?_, rfl⟩
+    simp only [Pipe.compareFtlP, hp2]
 
 end C05
